@@ -238,6 +238,21 @@ func buildOverlay(e entry, wd string) (string, string) {
 		for _, g := range gen {
 			repl[filepath.Join(repoDir, e.Pkg, filepath.Base(g))] = g
 		}
+		// files named by //go:embed directives of the instrumented source
+		if el, err := os.ReadFile(filepath.Join(outDir, "embed.list")); err == nil {
+			for _, ln := range strings.Split(strings.TrimSpace(string(el)), "\n") {
+				f := strings.SplitN(ln, "\t", 2)
+				if len(f) != 2 {
+					continue
+				}
+				ms, _ := filepath.Glob(filepath.Join(f[0], f[1]))
+				for _, m := range ms {
+					if rel, err := filepath.Rel(f[0], m); err == nil {
+						repl[filepath.Join(repoDir, e.Pkg, rel)] = m
+					}
+				}
+			}
+		}
 	}
 	ov := map[string]any{"Replace": repl}
 	b, _ := json.MarshalIndent(ov, "", " ")
